@@ -105,3 +105,41 @@ def install_counting_heapq() -> CountingHeapq:
     c = CountingHeapq()
     L.heapq = c
     return c
+
+
+class StableId:
+    """Harness-side replacement for the name ``id`` inside pdfminer.layout.
+
+    group_textboxes breaks ties between equal box distances by ``id(obj)``, i.e. by memory address, which differs
+    from run to run (that dependence is property C12's subject).  To keep C08/C09 runs reproducible the harness
+    numbers objects in the order in which the analysis first asks for their id; ``reset()`` before each analysis."""
+
+    def __init__(self) -> None:
+        import builtins
+
+        self._id = builtins.id
+        self.map = {}
+        self.keep = []
+
+    def __call__(self, o):
+        k = self._id(o)
+        v = self.map.get(k)
+        if v is None:
+            v = self.map[k] = len(self.map)
+            self.keep.append(o)  # keep alive: a real id must not be reused while the table is in use
+        return v
+
+    def reset(self) -> None:
+        self.map.clear()
+        self.keep.clear()
+
+
+def install_stable_id() -> StableId:
+    import pdfminer.layout as L
+
+    cur = L.__dict__.get("id")
+    if isinstance(cur, StableId):
+        return cur
+    s = StableId()
+    L.id = s
+    return s
